@@ -14,6 +14,7 @@ pub struct JournalG {
     pub mutex_poisoned: bool,  // a thread panicked while holding the journal mutex: nobody can take it any more
     pub recs: Seq<RecG>,       // complete batches appended so far, in file order
     pub len: nat, pub os_len: nat, pub synced_len: nat,   // three-tier lengths (user buffer / OS / device)
+    pub path: int,             // identity of the ACTIVE journal file (the one the writer appends to)
 }
 #[derive(PartialEq, Eq)]
 pub enum ApplyKind { Insert, Remove, RemoveWeak, Clear }
@@ -242,6 +243,11 @@ impl Writer {
             final(w).journal.synced_len >= old(w).journal.synced_len && final(w).journal.synced_len <= final(w).journal.os_len,
             r is Ok ==> final(w).journal.synced_len == old(w).journal.len && final(w).journal.failed == old(w).journal.failed, // [C09:rotate-syncs-old-journal]
             r is Err ==> final(w).journal.failed || final(w).journal == old(w).journal,
+            // Ok((sealed file, new active file)): the writer now appends to a file that did not exist before
+            // (File::create_new; journal ids only grow)
+            r matches Ok(pp) ==> pp.0.id@ == old(w).journal.path && pp.1.id@ == final(w).journal.path && final(w).journal.path != old(w).journal.path,
+            // (an Err after the switch -- directory fsync failed -- leaves the writer on the new file)
+            final(w).journal.path == old(w).journal.path || (forall|i: int| 0 <= i < old(w).sealed.len() ==> (#[trigger] old(w).sealed[i]).path != final(w).journal.path),
             *final(w) == (World { journal: final(w).journal, ..*old(w) }),
     { unimplemented!() }
 }
@@ -498,6 +504,7 @@ impl Clone for PathBuf {
 #[verifier::external_body]
 pub fn fs_remove_file(p: &PathBuf, Tracked(w): Tracked<&mut World>) -> (r: Result<(), IoError>)
     requires old(w).sealed.len() > 0 && old(w).sealed[0].path == p.id@, // [C10:oldest-first]
+             p.id@ != old(w).journal.path, // [C10:never-unlink-the-active-journal] [C02:never-unlink-the-active-journal] [C04:never-unlink-the-active-journal]
              evictable(old(w).sealed[0], *old(w)), // [C10:P-EVICT] [C02:P-EVICT]
     ensures r is Ok ==> *final(w) == (World { sealed: old(w).sealed.skip(1), removed: old(w).removed.push(p.id@), ..*old(w) }),
             r is Err ==> *final(w) == *old(w),
